@@ -283,10 +283,39 @@ func (p *Prog) globalByteSlice(g *ssa.Global) ([]byte, bool) {
 	return out, found
 }
 
-// rawHeadExempt: run-time bytes that stand in head position by design, with the reason.
-var rawHeadExempt = map[string]string{
-	"(*singleElements).Encode:1": "hash level of a last-level element list: same bound as below",
-	"(*hkeyElements).Encode:1":   "hash level of an element list: bounded by the number of digest levels of the client's Digester (4 for the built-in one); levels >= 24 are outside the supported range (A-CLIENT)",
+// smallByGuard: the value a store writes is (a conversion of) v, and on every path to `at` a dominating test
+// rejects v > K (or v >= K) for a constant K that keeps v below 24.
+func smallByGuard(st ssa.Instruction, at ssa.Instruction) bool {
+	s, ok := st.(*ssa.Store)
+	if !ok {
+		return false
+	}
+	src := canonConv(s.Val)
+	for d := at.Block(); d != nil; d = d.Idom() {
+		ifi, ok := d.Instrs[len(d.Instrs)-1].(*ssa.If)
+		if !ok || d == at.Block() {
+			continue
+		}
+		bo, ok := ifi.Cond.(*ssa.BinOp)
+		if !ok {
+			continue
+		}
+		k, isK := constInt(canonConv(bo.Y))
+		if !isK || !sameValue(canonConv(bo.X), src) {
+			continue
+		}
+		max := int64(-1)
+		switch bo.Op {
+		case token.GTR:
+			max = k
+		case token.GEQ:
+			max = k - 1
+		}
+		if max >= 0 && max < 24 && edgeDominates(d, 1, at.Block()) {
+			return true
+		}
+	}
+	return false
 }
 
 func ruleL21(p *Prog, r *Report) {
@@ -423,8 +452,9 @@ func ruleL21(p *Prog, r *Report) {
 			for i < len(w.bytes) && bad == "" {
 				b := w.bytes[i]
 				if !b.known {
-					key := fmt.Sprintf("%s:%d", p.Name(f), i)
-					if _, ex := rawHeadExempt[key]; ex && ord == 1 {
+					// a run-time byte in head position is a complete one-byte unsigned integer when a dominating
+					// rejection bounds its source below 24 (the hash level is refused above maxDigestLevel)
+					if b.from != nil && smallByGuard(b.from, w.in) {
 						i++
 						continue
 					}
